@@ -236,10 +236,10 @@ Proof.
   - apply N.compare_eq_iff in Hs. subst s2.
     destruct (N.compare t2 t1) eqn:Ht.
     + apply N.compare_eq_iff in Ht. subst. apply N.compare_refl.
-    + apply N.compare_lt_iff in Ht. apply N.compare_lt_iff. lia.
-    + apply N.compare_gt_iff in Ht. apply N.compare_gt_iff. lia.
-  - apply N.compare_lt_iff in Hs. apply N.compare_lt_iff. lia.
-  - apply N.compare_gt_iff in Hs. apply N.compare_gt_iff. lia.
+    + change (t2 < t1) in Ht. apply N.compare_lt_iff. lia.
+    + rewrite N.compare_gt_iff in Ht. apply N.compare_gt_iff. lia.
+  - change (s2 < s1) in Hs. apply N.compare_lt_iff. lia.
+  - rewrite N.compare_gt_iff in Hs. apply N.compare_gt_iff. lia.
 Qed.
 
 (* ------------------------------------------------------------------ *)
@@ -295,7 +295,7 @@ Proof.
       destruct (IH b H) as [H1 H2].
       unfold bytes_leb, bytes_ltb in *. cbn [bytes_compare]. rewrite N.compare_refl.
       split; assumption.
-    + apply N.compare_lt_iff in Hxy.
+    + change (x < y) in Hxy.
       replace (x =? y) with false by (symmetry; apply N.eqb_neq; lia).
       destruct ((x <? 255) && (x + 1 <? y)) eqn:Hc.
       * apply andb_true_iff in Hc. destruct Hc as [_ Hc]. apply N.ltb_lt in Hc.
